@@ -21,8 +21,37 @@ RL_ACTIONS = {"Attempt", "Tick"}
 AU_ACTIONS = {"Login", "Use", "LogoutCall", "LogoutDo", "LogoutRet", "Tick", "Restart"}
 
 
+# Configured block durations (block_auth_min, minutes) of the "config" leg: the
+# default-sized control, the largest value whose conversion to nanoseconds still
+# fits int64, the first one that does not, values that wrap to a negative and to
+# a small positive duration, 2^32-1 and 2^64-1.
+CONFIG_BLOCK_MIN = [100000, 153722867, 153722868, 200000000, 307445735, 4294967295, 18446744073709551615]
+MAX_DURATION_NS = (1 << 63) - 1
+
+
 def classify(rec):
-    """Narrow classification of a reproduced disagreement.  No known findings."""
+    """Narrow classification of a reproduced disagreement.
+
+    block-duration-overflow: the auth module was built by initUsers from a
+    block_auth_min whose conversion to nanoseconds does not fit int64, and the
+    symptom is exactly "the block is not in force": the spec expects the
+    limit-reached record / a 'blocked' reply and the code shows no such record,
+    or one that is not a long block, or evaluates the attempt.
+    """
+    if rec.get("leg") == "config" and rec.get("module") == "RL" and rec.get("act", "").startswith("attempt") \
+            and int(rec.get("block_min", 0)) * 60 * 10 ** 9 > MAX_DURATION_NS:
+        n, b = rec["n"], rec["b"]
+        got_out, got_state = rec["got"]
+        nm = rec["names"][0]
+        # What the code shows for the client if it reached the limit with a
+        # wrapped duration: no live record (block already over) or a
+        # limit-reached record that is not a long block (short block).
+        wrapped = got_state == "%s=0,0" % nm or \
+            (got_state.startswith("%s=%d," % (nm, n)) and not got_state.endswith(",long"))
+        want_blocked_reply = all(a[0] == "blocked" for a in rec["admissible"])
+        may_reach_limit = any(a[0] == "fail" and a[1] == "%s=%d,%d" % (nm, n, b) for a in rec["admissible"])
+        if (want_blocked_reply and got_out in ("fail", "ok")) or (may_reach_limit and got_out == "fail" and wrapped):
+            return "block-duration-overflow"
     return None
 
 
@@ -202,20 +231,38 @@ def run(ctx):
     rl = model_check(ctx, "RateLimit", "RateLimit.mc.cfg", RL_ACTIONS)
     au = model_check(ctx, "Auth", "Auth.mc.cfg", AU_ACTIONS)
     graphs = build_graphs(rl["vectors"] + au["vectors"])
+    # The "config" leg: the same module with a block longer than any history,
+    # concretised by huge block_auth_min values fed through initUsers.
+    rll = model_check(ctx, "RateLimit", "RateLimit.long.cfg", RL_ACTIONS)
+    cfg_graphs = []
+    for g in build_graphs(rll["vectors"]):
+        for bm in CONFIG_BLOCK_MIN:
+            cfg_graphs.append(dict(g, leg="config", block_min=bm))
     nedges = sum(len(g["edges"]) for g in graphs)
     ctx.log("graphs: %d configurations, %d distinct edges" % (len(graphs), nedges))
     if len(graphs) < 12 or nedges < 3000 or not any(e[1].startswith("race") for g in graphs for e in g["edges"]):
         raise vlib.Inconclusive("too few configurations/edges: %d/%d" % (len(graphs), nedges))
 
     # ---- direction A
-    rows, (p_rl, t_rl), (p_au, t_au) = walk_and_trace(ctx, graphs)
-    summaries = [r for r in rows if r.get("kind") == "summary"]
+    rows, (p_rl, t_rl), (p_au, t_au) = walk_and_trace(ctx, graphs + cfg_graphs)
+    cfg_summaries = [r for r in rows if r.get("kind") == "summary" and r.get("leg") == "config"]
+    summaries = [r for r in rows if r.get("kind") == "summary" and r.get("leg") != "config"]
     flaky = [r for r in rows if r.get("kind") == "flaky"]
+    truncated = 0
     for r in rows:
         if r.get("kind") == "bad":
-            ctx.disagreement(classify(r), r, "%s n=%s b=%s ttl=%s %s: after %s, action '%s' gave %s; spec admits %s" % (
-                r["module"], r["n"], r["b"], r["ttl"], r["variant"], [h["act"] for h in r["history"]],
+            via = " (initUsers, block_auth_min=%s)" % r["block_min"] if r.get("leg") == "config" else ""
+            verdict = ctx.disagreement(classify(r), r, "%s n=%s b=%s ttl=%s %s%s: after %s, action '%s' gave %s; spec admits %s" % (
+                r["module"], r["n"], r["b"], r["ttl"], r["variant"], via, [h["act"] for h in r["history"]],
                 r["act"], r["got"], r["admissible"]))
+            truncated += verdict == "known"
+    # Config leg: every configuration value must have been walked, and the
+    # values that fit must have shown blocks in force (no vacuous pass).
+    if len(cfg_summaries) != len(cfg_graphs):
+        raise vlib.Inconclusive("config leg: %d of %d walks" % (len(cfg_summaries), len(cfg_graphs)))
+    for r in cfg_summaries:
+        if not r["bad"] and (r["steps"] < 50 or r["blocked"] < 5):
+            raise vlib.Inconclusive("config leg: vacuous walk %s" % {k: r[k] for k in ("n", "block_min", "steps", "blocked")})
     # Edge coverage: an edge counts as covered when any tour/variant of its
     # configuration took it.  The only edges the code may leave aside are the
     # alternatives of the spec's nondeterministic points.
@@ -230,7 +277,7 @@ def run(ctx):
         raise vlib.Inconclusive("walk summaries for %d of %d configurations" % (len(per_cfg), len(graphs)))
     steps = sum(d["steps"] for d in per_cfg.values())
     never, holes = 0, []
-    nobad = not any(r.get("kind") == "bad" for r in rows)
+    nobad = not any(r.get("kind") == "bad" and r.get("leg") != "config" for r in rows)
     for g in graphs:
         d = per_cfg[(g["module"], g["n"], g["b"], g["ttl"])]
         if d["edges"] != len(g["edges"]):
@@ -287,13 +334,17 @@ def run(ctx):
                 "spec's nondeterministic points (count kept/forgotten at the end instant; expiry prolonged or not)",
         "trace_lines": len(t_rl) + len(t_au), "trace_lines_rejected": len(bad_rl) + len(bad_au),
         "trace_blocked_replies": blocked_lines, "flaky": len(flaky),
+        "config_leg_walks": len(cfg_summaries), "config_leg_steps": sum(r["steps"] for r in cfg_summaries),
+        "config_leg_block_auth_min": CONFIG_BLOCK_MIN,
+        "truncated_by_known_finding": truncated,
         "blocked_replies_by_remote_address_form": forms,
         "restarts_2live_diff_expiry_last_token_expires_later": done["restarts_last_later"],
         "restarts_2live_diff_expiry_last_token_expires_earlier": done["restarts_last_earlier"],
         "exhaustive": True, "samples": samples,
         # TLC's own counters of the two exhaustive runs only (the trace
         # validation runs are linear and not counted here).
-        "states": rl["distinct"] + au["distinct"], "transitions": rl["generated"] + au["generated"],
+        "states": rl["distinct"] + au["distinct"] + rll["distinct"],
+        "transitions": rl["generated"] + au["generated"] + rll["generated"],
     }
     return ctx.finish("model_checking", cov, assumptions=[
         "TLC; the abstraction functions of zz_verif_c12_test.go (live records only, counts capped at the limit, times relative to the virtual clock)",
